@@ -24,7 +24,7 @@ type c10call struct {
 func VerifC10_Dispatch() {
 	vNativeReset()
 	mode := vInt("mode", 0, 2)
-	shape := vInt("shape", 0, 13)
+	shape := vInt("shape", 0, 14)
 	helpCmd := vBool("helpcmd")
 	gv := positional("gv", "a", "b", "w", "a1", "help", "r", "rs", "we")
 	av := positional("av", "a", "b", "w", "a1", "help", "r", "rs", "we")
@@ -46,6 +46,7 @@ func VerifC10_Dispatch() {
 		opt.SetRequireOrder()
 	}
 	opt.String("g", "dg")
+	color := opt.StringOptional("color", "auto")
 	opt.SetCommandFn(fn("root"))
 	a := opt.NewCommand("a", "command a")
 	ao := a.String("ao", "dao")
@@ -103,6 +104,9 @@ func VerifC10_Dispatch() {
 	case 13:
 		// options a wrapper declares itself are inherited by its own sub commands
 		args, want, wantArgs = []string{"w", "--wt", gv, "we", p}, "we", []string{p}
+	case 14:
+		// a bare optional-value option, the terminator, then a command name: nothing is selected
+		args, wantArgs = []string{"--color", "--", "a"}, []string{"a"}
 	}
 	vPhase("run")
 	remaining, err := opt.Parse(args)
@@ -132,6 +136,9 @@ func VerifC10_Dispatch() {
 	vAssert("dispatch/args", eqStrs(c.args, remaining))
 	if shape == 12 {
 		vAssert("dispatch/no-option-after-stop", !*rf)
+	}
+	if shape == 14 {
+		vAssert("dispatch/optional-keeps-default", *color == "auto")
 	}
 	if shape == 13 {
 		vAssert("dispatch/wrapper-option-value", c.wt == gv)
